@@ -6,8 +6,8 @@
    already-received frames undelivered until the peer sends something else.  The lemma: from any state
    of the geometric invariant G with has_data, repeating decode calls (any caller length >= 1) while
    has_data holds (i) terminates within readlen calls, (ii) never touches the socket (reader state
-   unchanged, no read request), (iii) hands out exactly the readlen buffered bytes, each call returning
-   data, and (iv) ends with has_data = false - only then may the loop block again. *)
+   unchanged, no read request), (iii) hands out exactly the readlen buffered bytes, every call returning
+   at least one byte (call_data: never EAGAIN), and (iv) ends with has_data = false - only then may the loop block again. *)
 From Coq Require Import ZArith List Bool Lia.
 From LV Require Import Ws.WsDefs Ws.Base64Defs Ws.WsSpecDefs Ws.WsDecoderModel Ws.WsTransparency
   Ws.WsListProofs Ws.WsDecoderProofs1 Ws.WsSafetyProofs Gen.Consts_C09.
@@ -16,6 +16,10 @@ Local Open Scope Z_scope.
 
 (* webSocketsHasDataInBuffer (plain transport; since 492ab43: readlen > 0) *)
 Definition has_data (w : ws) : bool := 0 <? w_readlen w.
+
+(* a call that hands out bytes (not EAGAIN, not an error) *)
+Definition call_data (r : callres) : bool :=
+  match r with CRet ret _ d => (0 <? ret) && (zlen d =? ret) | CFault => false end.
 
 Fixpoint drain (fuel : nat) (w : ws) (i : io) (len : Z) : list callres * ws * io :=
   match fuel with
@@ -69,7 +73,7 @@ Qed.
 
 Lemma drain_complete_gen : forall fuel w i len, G w -> 1 <= len -> w_readlen w <= Z.of_nat fuel ->
   let '(rs, w', i') := drain fuel w i len in
-  has_data w' = false /\ i' = i /\ G w' /\ forallb call_ok rs = true /\
+  has_data w' = false /\ i' = i /\ G w' /\ forallb call_data rs = true /\
   zlen (delivered rs) = Z.max 0 (w_readlen w) /\ zlen rs <= Z.max 0 (w_readlen w).
 Proof.
   induction fuel as [|k IH]; intros w i len HG Hlen Hf.
@@ -83,7 +87,7 @@ Proof.
       destruct (drain k w' i len) as [[rs wf] iof]. destruct IH as (I1 & I2 & I3 & I4 & I5 & I6).
       pose proof (zlen_nonneg _ d).
       split; [assumption|]. split; [assumption|]. split; [assumption|]. split; [|split].
-      * cbn [forallb]. rewrite I4, andb_true_r. unfold call_ok.
+      * cbn [forallb]. rewrite I4, andb_true_r. unfold call_data.
         destruct (0 <? zlen d) eqn:E0; [|lia]. rewrite Z.eqb_refl. reflexivity.
       * cbn [delivered]. rewrite zlen_app, I5. lia.
       * rewrite zlen_cons. lia.
@@ -95,7 +99,7 @@ Qed.
 
 Theorem drain_complete : forall w i len, G w -> 1 <= len ->
   let '(rs, w', i') := drain (Z.to_nat (w_readlen w)) w i len in
-  has_data w' = false /\ i' = i /\ G w' /\ forallb call_ok rs = true /\
+  has_data w' = false /\ i' = i /\ G w' /\ forallb call_data rs = true /\
   zlen (delivered rs) = Z.max 0 (w_readlen w) /\ zlen rs <= Z.max 0 (w_readlen w).
 Proof. intros w i len HG Hlen. apply drain_complete_gen; try assumption. lia. Qed.
 
